@@ -74,7 +74,7 @@ type aliasAnalysis struct {
 	regions  map[types.Object][]aliasRegion
 	captured map[types.Object]bool
 	seedLen  map[string]int // source label -> statically known length of a package-level []byte
-	stack    []ast.Node // enclosing loops, function literals, ifs, switches and case clauses of the statement being scanned
+	stack    []ast.Node     // enclosing loops, function literals, ifs, switches and case clauses of the statement being scanned
 }
 
 // aliasRegion: the variable is an alias at every position >= start (NoPos: everywhere) outside the excluded ranges
@@ -346,7 +346,9 @@ func (a *aliasAnalysis) seed(obj types.Object, lv uint8, label string) {
 	}
 }
 
-func (a *aliasAnalysis) add(obj types.Object, lv uint8, from string) { a.addAt(obj, lv, from, aliasRegion{}) }
+func (a *aliasAnalysis) add(obj types.Object, lv uint8, from string) {
+	a.addAt(obj, lv, from, aliasRegion{})
+}
 
 func (a *aliasAnalysis) addAt(obj types.Object, lv uint8, from string, reg aliasRegion) {
 	if obj == nil || lv == 0 {
